@@ -602,8 +602,11 @@ _OT = tp.TypeVar("_OT")
 
 @compat.cache
 def isuniontype(obj: type) -> compat.TypeIs[tp.Union]:
-    n = name(origin(obj))
-    return n in ("Union", "UnionType")
+    # (By identity: a user class may well be called `Union`.)
+    return origin(obj) in _UNION_ORIGINS
+
+
+_UNION_ORIGINS = (tp.Union, getattr(types, "UnionType", tp.Union))
 
 
 @compat.cache
